@@ -20,11 +20,16 @@ enum Ty {
     HwQubit,
     /// a standard-library gate with its parameter and qubit counts
     Std(usize, usize),
+    /// the placeholder types the analysis gives to what it does not support / could not type
+    Todo,
+    Undef,
 }
 
 fn real_type(t: Ty) -> Type {
     match t {
         Ty::Std(a, b) => Type::Gate(a, b),
+        Ty::Todo => Type::ToDo,
+        Ty::Undef => Type::Undefined,
         Ty::Int => Type::Int(Some(32), IsConst::False),
         Ty::Qubit => Type::Qubit,
         Ty::Gate => Type::Gate(1, 2),
@@ -55,6 +60,10 @@ fn op_text(op: &Op) -> String {
         Op::Bind(n, Ty::Qubit) => format!("bq:{n}"),
         Op::Bind(n, Ty::Gate) => format!("bg:{n}"),
         Op::Bind(n, Ty::HwQubit) => format!("bh:{n}"),
+        Op::Bind(n, Ty::Todo) => format!("bt:{n}"),
+        Op::Bind(n, Ty::Undef) => format!("bu:{n}"),
+        Op::LookupOrBind(n, Ty::Todo) => format!("ot:{n}"),
+        Op::LookupOrBind(n, Ty::Undef) => format!("ou:{n}"),
         Op::Lookup(n) => format!("l:{n}"),
         Op::LookupOrBind(n, Ty::Int) => format!("oi:{n}"),
         Op::LookupOrBind(n, Ty::Qubit) => format!("oq:{n}"),
@@ -69,6 +78,8 @@ fn parse_op(s: &str) -> Option<Op> {
         "q" => Some(Ty::Qubit),
         "g" => Some(Ty::Gate),
         "h" => Some(Ty::HwQubit),
+        "t" => Some(Ty::Todo),
+        "u" => Some(Ty::Undef),
         _ => None,
     };
     Some(match s {
@@ -502,7 +513,7 @@ fn random_history(r: &mut Rng) -> Vec<Op> {
     let mut depth = 1;
     for _ in 0..n {
         let mut name = r.pick(&names).to_string();
-        let mut ty = *r.pick(&[Ty::Int, Ty::Int, Ty::Qubit, Ty::Gate]);
+        let mut ty = *r.pick(&[Ty::Int, Ty::Int, Ty::Qubit, Ty::Gate, Ty::Todo, Ty::Undef]);
         // names that already mean something: the built-in constants and `U` (bound in the global scope
         // of a fresh table) and names of the standard library
         if r.chance(1, 6) {
